@@ -59,8 +59,8 @@ type vkForeignSVCB struct{ *dns.SVCBAlpn }
 
 type vkPrivData struct{ b []byte }
 
-func (d *vkPrivData) String() string            { return fmt.Sprintf("%x", d.b) }
-func (d *vkPrivData) Parse([]string) error      { return nil }
+func (d *vkPrivData) String() string       { return fmt.Sprintf("%x", d.b) }
+func (d *vkPrivData) Parse([]string) error { return nil }
 func (d *vkPrivData) Pack(b []byte) (int, error) {
 	if len(b) < len(d.b) {
 		return 0, dns.ErrBuf
@@ -364,8 +364,8 @@ var vkCanned = []string{
 	"example.org. 300 IN AFSDB 1 afs.example.org.",
 	"example.org. 300 IN MINFO r.example.org. e.example.org.",
 	"example.org. 300 IN TYPE4711 \\# 4 0A000001",
-	"example.org. 0 ANY A",
 	"example.org. 0 NONE A 192.0.2.1",
+	"example.org. 0 CH TXT \"chaos\"",
 }
 
 // ---------------------------------------------------------------- EDNS0 / SVCB alphabets
@@ -639,4 +639,30 @@ func vkCloneSVCB(in []dns.SVCBKeyValue) []dns.SVCBKeyValue {
 		}
 	}
 	return out
+}
+
+// vkHasDomainName reports whether type t's RDATA carries a domain name
+// (compressible or not), judged from the library's struct tags.
+func vkHasDomainName(t uint16) bool {
+	mk, ok := dns.TypeToRR[t]
+	if !ok {
+		return false
+	}
+	var walk func(rt reflect.Type) bool
+	walk = func(rt reflect.Type) bool {
+		for i := 0; i < rt.NumField(); i++ {
+			f := rt.Field(i)
+			if f.Name == "Hdr" {
+				continue
+			}
+			if strings.Contains(f.Tag.Get("dns"), "domain-name") {
+				return true
+			}
+			if f.Type.Kind() == reflect.Struct && walk(f.Type) {
+				return true
+			}
+		}
+		return false
+	}
+	return walk(reflect.TypeOf(mk()).Elem())
 }
